@@ -187,9 +187,9 @@ def value_for(r, ref, req, long_strings=0.0):
     return v
 
 
-INVALID_KINDS_R = ("unknown_tag", "unknown_member", "index_oob", "count_oob")
+INVALID_KINDS_R = ("unknown_tag", "unknown_member", "index_oob", "count_oob", "count_absurd", "index_malformed")
 INVALID_KINDS_W = ("unknown_tag", "unknown_member", "index_oob", "count_oob", "unencodable", "too_short",
-                   "misaligned_bool")
+                   "misaligned_bool", "count_absurd", "index_malformed")
 
 
 def gen_invalid(r, ref, for_write):
@@ -231,6 +231,24 @@ def gen_invalid(r, ref, for_write):
             n = _n(dims) + r.choice((1, 2, 50))
             v = [gen_value(r, ref, t["type"]) for _ in range(n)] if for_write else None
             return pre + t["name"] + "{" + str(n) + "}", v, kind
+        if kind == "count_absurd":
+            # counts no controller array can have: beyond the 16-bit element count, zero, negative
+            if t["type"] not in ATOMIC_BY_NAME or t["type"] == "DWORD":
+                continue
+            n = r.choice((65536, 70000, 0, -1, 2**31))
+            v = None
+            if for_write:
+                v = [gen_value(r, ref, t["type"]) for _ in range(3)]
+            idx = "[" + ",".join("0" for _ in dims) + "]" if dims and r.random() < 0.5 else ""
+            return pre + t["name"] + idx + "{" + str(n) + "}", v, kind
+        if kind == "index_malformed":
+            if not dims or t["type"] == "DWORD":
+                continue
+            bad = r.choice(("x", "-1", "1.5", "", "0x10"))
+            idx = ["0"] * len(dims)
+            idx[r.randrange(len(dims))] = bad
+            v = gen_value(r, ref, t["type"]) if for_write and t["type"] in ATOMIC_BY_NAME else (1 if for_write else None)
+            return pre + t["name"] + "[" + ",".join(idx) + "]", v, kind
         if kind == "unencodable":
             if t["type"] not in INT_RANGES or dims:
                 continue
